@@ -119,7 +119,7 @@ def analyze(module: str, func: str, timeout: float) -> dict:
 	if os.environ.get('VERIF_TWIN', '1') == '1':
 		twin = _twin_module(mod, prelude.scratch())
 		saved = collections.Counter(prelude.COVER)
-		tmsgs, _, tcpu, _MT2 = _analyze_fn(getattr(twin, func), min(timeout, 30.0))
+		tmsgs, _, tcpu, _MT2 = _analyze_fn(getattr(twin, func), min(timeout, 150.0))
 		twin_state = 'unreached'
 		for m in tmsgs:
 			if m.state == _MT2.POST_FAIL:
